@@ -112,6 +112,20 @@ def base_and_variants(args):
     return res, n
 
 
+def plain_tree(args):
+    n_chr, scratch, wid = args
+    from vlib import syn, run
+    w = world(n_chr)
+    d = os.path.join(scratch, "c06_plain_%d" % wid)
+    shutil.rmtree(d, ignore_errors=True)
+    paths = syn.materialise(w, d)
+    out = os.path.join(d, "out")
+    rc = run.run_isoquant(run.base_argv(paths, out, extra=EXTRA), paths["home"], os.path.join(d, "o.txt"))
+    t = run.read_tree(os.path.join(out, "OUT")) if rc == 0 else None
+    shutil.rmtree(d, ignore_errors=True)
+    return t
+
+
 def permset_worker(args):
     """one PERMSET job in a fresh harness worker: kind 'record' (baseline with sorted orders, returns choice points + tree)
        or 'deviate' (one content gets another iteration order, returns tree diff against the given baseline)"""
@@ -219,7 +233,13 @@ def run(ctx):
         ctx.violation("permset:baseline-failed", err, {})
     else:
         # soundness of the rewrite: with sorted set orders the outputs must equal those of the unmodified interpreter
-        base_res, _ = base_and_variants((n_chr, [], ctx.scratch, 9000))
+        plain = core.pmap(plain_tree, [(n_chr, ctx.scratch, 9000), (n_chr, ctx.scratch, 9001)], jobs=2)[0]
+        if plain is None:
+            ctx.violation("permset:plain-run-failed", "plain base run failed", {})
+        else:
+            for fname, what in diff_trees(plain, tree_sorted)[:3]:
+                ctx.violation("setorder-sorted:%s" % fname.split("OUT.")[-1], "with every hash-dependent set iterated in sorted order %s differs "
+                              "from the run on the unmodified interpreter (PYTHONHASHSEED=0): %s" % (fname, what), {"file": fname})
         devs = []
         for key, cnt in sorted(choices.items()):
             n = key.count(", ") + 1 if key != "[]" else 0
